@@ -29,6 +29,9 @@ CURVES = [
     ("bls12-381", "Bls12381", True, "MIMC_BLS12_381", "POSEIDON2_BLS12_381", "BLS12_381"),
     ("bw6-761", "Bw6761", False, "MIMC_BW6_761", "POSEIDON2_BW6_761", "BW6_761"),
     ("bls24-315", "Bls24315", False, "MIMC_BLS24_315", "POSEIDON2_BLS24_315", "BLS24_315"),
+    ("bls12-377", "Bls12377", False, "MIMC_BLS12_377", "POSEIDON2_BLS12_377", "BLS12_377"),
+    ("bls24-317", "Bls24317", False, "MIMC_BLS24_317", "POSEIDON2_BLS24_317", "BLS24_317"),
+    ("bw6-633", "Bw6633", False, "MIMC_BW6_633", "POSEIDON2_BW6_633", "BW6_633"),
 ]
 for path, ident, full, mimc, pos2, eccid in CURVES:
     s = (tmpl.replace("@@PATH@@", path).replace("@@ID@@", ident).replace("@@FULL@@", "true" if full else "false")
